@@ -1,19 +1,26 @@
 #!/bin/bash
 # Re-evaluates every kept seeded change on a scratch worktree: the check of its property must exit 1 with a VIOLATION line.
-# usage: tools/seed_sweep.sh [filter]   -> out/seed_sweep.log
+# usage: tools/seed_sweep.sh [filter] [jobs]   -> out/seed_sweep.log   (jobs: seeds evaluated at the same time, default 4; never two of one property)
 cd "$(dirname "$0")/.."
+mkdir -p out
 : > out/seed_sweep.log
-for d in seeded/*${1:-}*/; do
-  s=$(basename "$d"); prop=${s%%-*}
+one() {
+  d=$1; s=$(basename "$d"); prop=${s%%-*}
   WT=$(mktemp -d /tmp/sweep_XXXX); rmdir "$WT"
-  git -C /repo worktree add --detach "$WT" HEAD -q || continue
+  git -C /repo worktree add --detach "$WT" HEAD -q || return
   if git -C "$WT" apply "$PWD/$d/patch.diff" 2>/dev/null; then
-    VERIF_REPO=$WT VERIF_EVIDENCE_DIR=out/scratch_evidence timeout 1500 ./check "$prop" > /tmp/_sweep.log 2>&1; rc=$?
-    nv=$(grep -c "^VIOLATION" /tmp/_sweep.log)
-    echo "$s exit=$rc violations_lines=$nv $(grep -E "^$prop tier" /tmp/_sweep.log | cut -c1-150)" >> out/seed_sweep.log
+    VERIF_REPO=$WT VERIF_EVIDENCE_DIR=out/scratch_evidence timeout 1500 ./check "$prop" > "$WT.log" 2>&1; rc=$?
+    nv=$(grep -c "^VIOLATION" "$WT.log")
+    echo "$s exit=$rc violations_lines=$nv $(grep -E "^$prop tier" "$WT.log" | cut -c1-150)" >> out/seed_sweep.log
   else
     echo "$s PATCH-DOES-NOT-APPLY" >> out/seed_sweep.log
   fi
+  rm -f "$WT.log"
   git -C /repo worktree remove --force "$WT"
+}
+export -f one
+# one lane per seed number, so that the seeds of one property never run at the same time (they share replay/ and scratch evidence files)
+for n in $(ls -d seeded/*${1:-}*/ | sed 's#.*-\([0-9]*\)/#\1#' | sort -un); do
+  ls -d seeded/*${1:-}*-$n/ | xargs -P "${2:-4}" -I{} bash -c 'one {}'
 done
 echo "done" >> out/seed_sweep.log
